@@ -20,7 +20,9 @@ Inductive c02case :=
        per term i: partial_dependence(i, X)[row] (the intercept term: _linear_predictor(X, term=i)[row]) *)
 | CGrid (t : cterm Q) (lin : list (nat * ((Z * Z) * (Z * Z)))) (m n : nat) (tol : Q)
         (grid : option (list (list (Z * Z))))    (* generate_X_grid(term, n, meshgrid=False); None = ValueError *)
-        (meshcols : list (list (Z * Z))).        (* generate_X_grid(term, n, meshgrid=True): every array, raveled *)
+        (meshcols : list (list (Z * Z)))         (* generate_X_grid(term, n, meshgrid=True): every array, raveled *)
+| CFlatten (t : cterm Q) (m : nat) (axes : list (list (Z * Z)))    (* user mesh axes (exact values of int / float32 / float64 entries) *)
+           (impl : list (list (Z * Z))).                             (* GAM._flatten_mesh(np.meshgrid of the axes with indexing='ij'), term) *)
 
 Definition lin_of (l : list (nat * ((Z * Z) * (Z * Z)))) (f : nat) : Q * Q :=
   match find (fun p => Nat.eqb (fst p) f) l with
@@ -69,4 +71,7 @@ Definition check_case (c : c02case) : bool :=
       Nat.eqb (length meshcols) (length (term_marginals t)) &&
       forallb (fun ic => row_close tol (snd ic) (map (fun pt => nth (fst ic) pt 0%Q) pts))
               (combine (seq 0 (length meshcols)) meshcols)
+  | CFlatten t m axes impl =>
+      Nat.eqb (length axes) (length (term_marginals t)) &&
+      grid_close 0 impl (user_mesh_grid Qfops m t (map (map Qof) axes))
   end.
